@@ -12,11 +12,13 @@ EXPLANATION = (
     "labella is re-imported on every path so that module-level code runs under the modelled zone as well. The assertions are the zone-independent "
     "oracles of C14-C17, so any dependence on the zone is a counter-example; it is replayed in a subprocess started with TZ set to the POSIX string "
     "of the model's offset or to the real zone name. A tree that never calls timestamp()/fromtimestamp() passes with results that do not mention the "
-    "zone variables at all (decided by normal-form identity)."
+    "zone variables at all (decided by normal-form identity). Added in round 4: naive datetime.astimezone() is modelled as well (local -> UTC like mktime, "
+    "then the wall clock of that instant), and Timeline.parse_items - the entry point of every exported timeline - is run on a symbolic datum time "
+    "(minute resolution, 2021) under every zone model: the time stored in the item and in the datum dict must be the supplied one."
 )
 BOUNDS = {"quick": dict(zones="symbolic constant offset; New York spring/fall 2021, Lord Howe Apr 2021, Chatham Sep 2021", harnesses="C17 floor/ceil/round/offset(1)/range(hour, week), C15, C16 and C14 windows 7..16 anchored before each transition (New York spring also 30 h before the gap), week ranges with step 2 and 3 compared with the same computation under UTC"), "thorough": dict(harnesses="all units' ranges")}
 OUTSIDE = ["zones with more than one transition inside the queried span", "leap seconds", "other years' transitions (the model is an instance, the mechanism - timestamp()/fromtimestamp() - is what is checked)", "whole exported timelines (C07's dot positions are TimeScale mappings, covered by the C15 cases)"]
-ASSUMPTIONS = ["the local zone can only be consulted through datetime.timestamp()/fromtimestamp()/now()/today() (time.* and os.environ are not used by labella)", "datetime modelled by vlib.symdt"]
+ASSUMPTIONS = ["the local zone can only be consulted through datetime.timestamp()/fromtimestamp()/astimezone()/now()/today() (time.* and os.environ are not used by labella)", "datetime modelled by vlib.symdt"]
 
 
 def configs(tier):
